@@ -48,6 +48,10 @@ def models():
     s = Spec(nx=2, nu=1, ode=[X(1), U(0)], note='double integrator, inf_der rate bound')
     s.cons = [Con('<=<=', Fr(-3, 10), Fr(3, 10), mid=inf_der(X(0)), grid='inf'), Con('==', at_t0(X(0)), 0)]
     out.append(s)
+    # explicit time in the body (time runs linearly over each step: the certificate must carry it as a polynomial, not freeze it)
+    s = Spec(nx=2, nu=1, ode=[X(1), U(0)], note='double integrator, explicit time in the body')
+    s.cons = [Con('<=', X(1) + t * Fr(3, 10), Fr(6, 10), grid='inf'), Con('>=', X(0) - t, -3, grid='inf'), Con('==', at_t0(X(0)), 0)]
+    out.append(s)
     # a vector-valued state declared BEFORE the constrained scalar state (the certificate must be built from the constrained state's own polynomial)
     s = Spec(nx=3, nu=1, ode=[U(0), -U(0) * 2, X(0)], xshape=[(2, 1), (1, 1)], note='vector state first, constrained scalar state after it')
     s.cons = [Con('<=', X(2), 1, grid='inf'), Con('==', at_t0(X(2)), 0), Con('<=<=', -50, 50, mid=U(0))]
